@@ -1,5 +1,29 @@
 """Per-property manifest texts."""
 CHECKS = {
+    "C10": {
+        "text": "ExprCalc.tla is a state machine whose state is a math term of the free algebra of the public DSL operations; Math(m) (ExprMath.tla) is its meaning built with pure term constructors and evaluated with Den of Sem.tla on a generic distribution. TLC enumerates the terms (BFS to depth 1-2, random walks deeper); the driver builds each with the real operators and canonicalises it under 3 orderings; TLC validates (TV.tla kind canon) that the canonical object denotes the same function of all value assignments as the presentation, and that distinct presentations which the library declares canonically equal (same canonical form) are semantically equal (kind eq).",
+        "ref": "DESIGN.md section 4/C10-C13",
+        "note": "Well-scoped, Q-free presentations over 3 names (plain, conditional, interventional, value-marked, population-tagged atoms; products, sums, fractions, one, zero). Identity testing in GF(32749), 2-3 models.",
+        "technique": "TLA+ state machine of the expression calculator; TLC-generated behaviours replayed into the DSL; outputs validated as traces by TLC against the denotational semantics",
+    },
+    "C11": {
+        "text": "ExprPerm.tla: state = a presentation, action Permute (reorder factors, re-nest products, reorder variables on either side of the bar), model-checked to preserve the denotation (PermSound). Every presentation TLC reaches from 7 bases within 3 Permute steps is built with the raw constructors and canonicalised under 2 orderings and 3-5 PYTHONHASHSEED values; TLC compares the serialised canonical form with that of the base (identical object, text, hash) and checks idempotence of every canonicalisation (also for the calculator terms of C10).",
+        "ref": "DESIGN.md section 4/C10-C13",
+        "note": "7 bases (3-5 factors, nested sums/fractions, population-tagged and interventional factors, 4 names); the hash-seed clause is covered by re-running the same TLC-generated behaviours under several seeds, not by modelling hash().",
+        "technique": "TLA+ permutation machine (TLC: denotation-preserving), generated presentations replayed into canonicalize, canonical forms compared by TLC",
+    },
+    "C12": {
+        "text": "For every TLC-generated calculator term the driver prints the really-built object (to_y0), parses the text (parse_y0) and logs the parsed object; TLC validates (TV.tla kind pp) that parsing succeeded, that the parsed object denotes the same quantity on all assignments of a generic distribution, and - when ExprMath.tla's Unnested/BuilderOrdered predicates put the object in the statement's restricted family - that it is structurally equal to the original and prints to the same text.",
+        "ref": "DESIGN.md section 4/C10-C13",
+        "note": "Python's eval is one opaque action. Distributions mentioning a name twice are skipped.",
+        "technique": "TLA+ calculator machine as generator; print/parse round trip of the implementation validated as a trace by TLC against the denotational semantics",
+    },
+    "C13": {
+        "text": "Every operator of the DSL (*, /, marginalize, conditional, normalize_marginalize, Fraction.simplify, Sum.simplify, chain_expand with and without reordering, fraction_expand, bayes_expand, contract, recursive_contract) is an action of ExprCalc.tla; constructors change Math(m), rewrite helpers must leave it unchanged. The reference rewrites (RefChain for every child order, RefFrac, RefBayes) and the normalisation of cond are model-checked by TLC on all atoms; every generated term is executed with the real operator and TLC validates that the returned object denotes Math(m) on all assignments, that chain expansions have single-child factors, and that an exception occurs only where the quantity is undefined everywhere. A named deviation DevMath attributes the one known finding by call site.",
+        "ref": "DESIGN.md section 4/C10-C13, 5.2",
+        "note": "Known finding cond-bound-vars is reported (KNOWN-FINDING) and everything else gated. Depth-1 exhaustive over 19 atoms, seeded slice of depth 2 and random walks to depth 3-5.",
+        "technique": "TLA+ state machine with one action per operator, TLC model checking of the reference identities, TLC-generated behaviours replayed into the implementation and validated by TLC; named implementation-shaped deviation",
+    },
     "C17": {
         "text": "ID.tla transcribes Tian & Pearl's Lemma 1, 3, 4 and IDENTIFY as term constructors (QLemma1, QLemma4, TianIdentify); TLC model-checks that the result denotes Q[C]=P(C|do(V\\C)) and fails exactly when TIdent says so on every 3-node ADMG, district, admissible C and topological order (IDMachine mode tian: Sound, TianComplete). The real compute_c_factor (Lemma 1 and Lemma 4 paths), identify_district_variables and compute_ancestral_set_q_value are run on every TLC-generated (G, T, C, order) and each returned term is validated by TLC (TV.tla kind q) against Q[S] on generic SCMs.",
         "ref": "DESIGN.md section 4/C17",
